@@ -574,17 +574,15 @@ theorem oneOf_allOf_fresh_today :
   ⟨C19_today _ _ (by decide +kernel), C19_today _ _ (by decide +kernel), C19_today _ _ (by decide +kernel)⟩
 
 -- BEGIN finding:misfit
-/-- an open finding as an explicit history: `AnyOf[Array[Integer], Enum(values=…)]`; `<field>.serialize` of the stored
-    list (cell 1, which the instance, cell 0, refers to) hands the value to the Enum option, which returns it: the
-    "document" IS cell 1, and emptying it empties the instance's field -/
-def misfitShape : Shape := .wrapN .anyOf (.fixed 1) [.coll .array (.scalar .number), .scalar .enum]
+/-- a former explicit counterexample, now positive: `AnyOf[Array[Integer], Enum(values=…)]` — `AnyOf.serialize` hands the
+    stored list (cell 1) to the option that takes it (the Array option), and the document is a new list -/
+def misfitShape : Shape := .wrapN .anyOf .firstFit [.coll .array (.scalar .number), .scalar .enum]
 
-theorem anyOf_misfit_hands_out_stored :
+theorem anyOf_serialize_picks_the_fitting_option_today :
     let out := transfer (modeOf Generated.aliasing .fieldSerialize) 5 misfitShape witnessHeap (.ref 1)
-    out.2 = some (.ref 1) ∧
-      (runScript out.1 [1] [.write 1 ⟨"list", []⟩]).1.cells 1 ≠ witnessHeap.cells 1 ∧
-      (observeN 3 (runScript out.1 [1] [.write 1 ⟨"list", []⟩]).1 (.ref 0)).beq (observeN 3 out.1 (.ref 0)) = false := by
-  refine ⟨by decide +kernel, by decide +kernel, by decide +kernel⟩
+    ∃ doc, out.2 = some doc ∧ (reachList 4 out.1 doc).contains 1 = false ∧
+      (observeN 3 (runScript out.1 (roots doc) [.write 2 ⟨"list", []⟩]).1 (.ref 0)).beq (observeN 3 out.1 (.ref 0)) = true := by
+  refine ⟨.ref 2, by decide +kernel, by decide +kernel, by decide +kernel⟩
 -- END finding:misfit
 
 -- BEGIN finding:tupl
@@ -596,22 +594,12 @@ def tupleShape : Shape :=
   .keyed .root [("f", .wrapN .oneOf .firstFit [.keyed .tuplePos [("0", .coll .array (.scalar .string)), ("1", .scalar .number)],
                                                .scalar .string])]
 
-/-- an open finding as an explicit history: `OneOf[Tuple[Array[String], Integer], String]` given a tuple keeps the
-    tuple as it is (typedpy's private copy covers the mutable kinds only): the caller's list inside it (cell 2, reachable
-    from the kwargs the caller passed, cell 0) is the instance's; emptying it afterwards changes the instance -/
-theorem oneOf_keeps_tuple_elements :
+/-- a former explicit counterexample, now positive: `OneOf[Tuple[Array[String], Integer], String]` given a tuple keeps a
+    private deep copy — the caller's list inside the tuple (cell 2) is not the instance's, emptying it changes nothing -/
+theorem oneOf_copies_tuple_elements_today :
     let out := transfer (modeOf Generated.aliasing .construct) 5 tupleShape tupleHeap (.ref 0)
-    ∃ inst, out.2 = some inst ∧
-      Held out.1 [0] 2 ∧
-      observeN 4 (runScript out.1 [0] [.write 2 ⟨"list", []⟩]).1 inst ≠ observeN 4 out.1 inst := by
-  refine ⟨.ref 3, by decide +kernel, reachList_sound _ 3 (.ref 0) 2 (by decide +kernel), ?_⟩
-  intro h
-  have : (observeN 4 (runScript (transfer (modeOf Generated.aliasing .construct) 5 tupleShape tupleHeap (.ref 0)).1 [0]
-      [.write 2 ⟨"list", []⟩]).1 (.ref 3)).beq
-      (observeN 4 (transfer (modeOf Generated.aliasing .construct) 5 tupleShape tupleHeap (.ref 0)).1 (.ref 3)) = false := by
-    decide +kernel
-  rw [h] at this
-  revert this
+    ∃ inst, out.2 = some inst ∧ (reachList 5 out.1 inst).all (fun a => decide (3 ≤ a)) = true ∧
+      (observeN 4 (runScript out.1 [0] [.write 2 ⟨"list", []⟩]).1 inst).beq (observeN 4 out.1 inst) = true := by
   decide +kernel
 -- END finding:tupl
 
@@ -623,15 +611,7 @@ theorem only_listed_rows_unsafe_today :
   decide +kernel
 
 -- BEGIN statement-fails
-/-- the full statement is still false of today's code (the misfit delegation of `AnyOf.serialize`) -/
-theorem C19_statement_fails_today : ¬ C19_statement Generated.aliasing := by
-  intro st
-  have hf := st .fieldSerialize misfitShape (by decide +kernel) 5 witnessHeap (.ref 1) _ _ rfl
-  obtain ⟨hres, hne, _⟩ := anyOf_misfit_hands_out_stored
-  apply hne
-  refine (hf.2 (.ref 1) hres).1 [.write 1 ⟨"list", []⟩] ?_ 1 (by decide)
-  simp only [AdmissibleAll, Admissible, and_true]
-  refine ⟨⟨1, by simp [roots], Reach.refl _⟩, fun k hk => by simp [Cell.kids] at hk⟩
+-- (no unsafe in-scope row is left: see `only_listed_rows_unsafe_today`)
 -- END statement-fails
 
 /-- what was the flagship finding now holds: fast serialization (and `<field>.serialize`) of scalar-item
